@@ -331,6 +331,8 @@ def generate(unit):
                 blk["expect"] = [e.replace(var, xname) for e in blk["expect"]]
                 blk["sig"] = blk["sig"].replace(var, xname) if blk["sig"] else blk["sig"]
                 blk["contract"] = [c.replace(var, xname) for c in blk["contract"]]
+                for k in blk["loop"]:
+                    blk["loop"][k] = [c.replace(var, xname) for c in blk["loop"][k]]
         real_sig = rscan.norm(src[sig_start:b])
         if blk["expect"] and real_sig not in [rscan.norm(e) for e in blk["expect"]]:
             raise Undecided(f"lost anchor: signature of {kv['item']} in {kv['file']} is `{real_sig}`, unit expects `{' | '.join(rscan.norm(e) for e in blk['expect'])}`")
